@@ -25,9 +25,10 @@ pub fn seeds(tier: Tier) -> Vec<Seed> {
     for p in crate::c06::library() {
         v.push(Seed { name: p.name.clone(), bytes: p.to_bytes() });
     }
+    // quick: the consumer only (imports of every WIT shape); thorough: all four
     let lt = crate::c01::lib_t();
-    let take = if tier == Tier::Thorough { lt.len() } else { 2 };
-    for p in lt.into_iter().take(take) {
+    let (skip, take) = if tier == Tier::Thorough { (0, lt.len()) } else { (1, 1) };
+    for p in lt.into_iter().skip(skip).take(take) {
         v.push(Seed { name: p.name.clone(), bytes: p.to_bytes() });
     }
     // the repository's own fixtures
